@@ -26,13 +26,9 @@ Definition convert_bell_string (c : N) : result nat :=
 Definition convert_to_bell_string (b : nat) : result N :=
   if (b =? 0) || (MAX_BELL + 1 <=? b) then Err EValue else nth_res BELL_NAMES (b - 1).
 
-(* y.upper() in BELL_NAMES: true exactly for the 16 names and a b c d e t (checked against the
-   running interpreter on all 0x110000 code points by the harness) *)
-Definition upper_in_bell_names (c : N) : bool :=
-  match index_of c BELL_NAMES 0 with
-  | Some _ => true
-  | None => existsb (N.eqb c) [97;98;99;100;101;116]%N
-  end.
+(* `y in BELL_NAMES` (valid_pn, after "fix: make valid_pn accept exactly the bell symbols ...") *)
+Definition in_bell_names (c : N) : bool :=
+  match index_of c BELL_NAMES 0 with Some _ => true | None => false end.
 
 Definition is_cross_char (c : N) : bool := N.eqb c cX || N.eqb c cDASH.
 
@@ -115,7 +111,7 @@ Definition convert_pn (s : ustring) : result (list places) :=
   else convert_block false s.
 
 Definition valid_block (s : ustring) : bool :=
-  forallb (fun p => ustr_eqb p [cDASH] || forallb upper_in_bell_names p) (pn_pieces s).
+  forallb (fun p => ustr_eqb p [cDASH] || forallb in_bell_names p) (pn_pieces s).
 
 Definition valid_pn (s : ustring) : bool :=
   if has_comma s then forallb valid_block (split_on cCOMMA s) else valid_block s.
